@@ -126,6 +126,21 @@ def run(prog, tier):
     bindings['pascal-unit'] = ('pascal/xraylib.pas', {k: (v[0], v[1]) for k, v in pu.items() if v[0] is not None}, True, 3)
     j = LB.java_constants(path('java/Xraylib.java'))
     bindings['java'] = ('java/Xraylib.java', {k: (v[0], v[1]) for k, v in j.items()}, False, 1600)
+    # Java constants that carry no literal: read from the head of the table file, which java/pr_data_java.c fills from C macros
+    from rules.c19 import file_constants
+    fc = file_constants(prog)
+    if fc is None:
+        chk.inconclusive('constant-value', 'java/Xraylib.java', 'layout of the Java table file could not be read')
+    else:
+        nfc = 0
+        for jf_, jl_, wl_, wm_, wln_, wtxt_ in fc:
+            if jf_ not in C:
+                continue
+            nfc += 1
+            chk.decide(wm_ == jf_, 'constant-value', 'java/Xraylib.java', 'java', jf_ + ' (from the table file)', 'java/pr_data_java.c:%s' % wln_,
+                       'Xraylib.%s takes its value from the table file; java/pr_data_java.c writes that position from %s, not from the C macro %s = %s' % (
+                           jf_, wm_ or wtxt_, jf_, fmt(C[jf_][0])), why='filled from the C macro %s' % jf_)
+        chk.floor('java constants loaded from the table file', nfc, 10)
     idl, common, idlfiles = LB.idl_constants(path('idl/xraylib.pro'))
     bindings['idl'] = ('idl/xraylib.pro', {k: (v[0], v[1], os.path.relpath(v[3], repo)) for k, v in idl.items()}, True, 1600)
 
